@@ -55,9 +55,8 @@ type Describe struct {
 func (f *Describe) Call(s *slip.Scope, args slip.List, depth int) (result slip.Object) {
 	slip.CheckArgCount(s, depth, f, args, 1, 2)
 	obj := args[0]
-	so := s.Get("*standard-output*")
-	ss, _ := so.(slip.Stream)
-	w := so.(io.Writer)
+	w := s.WriterVar("*standard-output*", depth)
+	ss, _ := w.(slip.Stream)
 	if 1 < len(args) {
 		var ok bool
 		ss, _ = args[1].(slip.Stream)
